@@ -486,7 +486,7 @@ theorem clookup_pre (e c : κ) (X : List (List κ × ν)) (cs : List κ) :
         simpa using ih
     · have : ¬ (e :: x.1 = c :: cs) := fun e' => h (List.cons.inj e').1
       simp only [this, decide_false, h, if_false]
-      simpa [h] using ih
+      simp [h]
 
 theorem clookup_content_none (dflt : ν) (d : Nat) (r : List (κ × Tree κ ν d)) (c : κ) (cs : List κ)
     (h : ∀ x ∈ r, x.1 ≠ c) : clookup (content dflt (d + 1) (show Tree κ ν (d + 1) from r)) (c :: cs) = none := by
